@@ -2,6 +2,7 @@ package drive
 
 import (
 	"fmt"
+	"strings"
 	"time"
 
 	"github.com/ostafen/clover/v2/document"
@@ -507,6 +508,42 @@ var scenarios = []scenario{
 		s.Insert("b", mk(100, 10500), false) // and the same batch without the duplicate goes in whole
 		s.Count(all)
 		s.Count(&model.Query{Coll: "b", Crit: cmpc(model.OpEq, "a", int64(3))})
+	}},
+	{"long-collection-and-field-names", "C13 C14 C06 C02 C12", func(s *S) {
+		// names whose key prefixes fall just below an allocator size class (room for an id or a value behind the
+		// prefix in the same allocation): 520 and 1030 byte names, an index on a 520-byte field, neighbours that
+		// differ in the last byte only
+		long := func(ch string, n int) string { return "L" + strings.Repeat(ch, n-1) }
+		cA, cB, cC := long("n", 520), long("n", 519)+"m", long("q", 1030)
+		fA, fB := long("f", 520), long("f", 519)+"g"
+		docs := func(from int) []map[string]any {
+			var out []map[string]any
+			for i := 0; i < 9; i++ {
+				out = append(out, map[string]any{"_id": fixedID(from + i), fA: int64(i % 4), fB: int64(8 - i), "x": int64(i)})
+			}
+			return out
+		}
+		for k, c := range []string{cA, cB, cC} {
+			s.CreateCollection(c, nil)
+			s.CreateIndex(c, fA)
+			s.Insert(c, docs(100*k), false)
+			s.CreateIndex(c, fB)
+		}
+		for _, c := range []string{cA, cB, cC} {
+			s.FindAll(&model.Query{Coll: c, Crit: cmpc(model.OpGtEq, fA, int64(2))})
+			s.FindAll(&model.Query{Coll: c, Sorted: true, Sort: []model.SortOpt{{Field: fB, Dir: -1}}, HasLimit: true, Limit: 4})
+			s.Count(&model.Query{Coll: c, Crit: cmpc(model.OpLt, fB, int64(5))})
+		}
+		s.Bulk(BulkUpdateMap, &model.Query{Coll: cA, Crit: cmpc(model.OpLtEq, "x", int64(4))}, &Upd{Name: "set", Set: map[string]any{fA: int64(40), fB: int64(-1)}})
+		s.Bulk(BulkDelete, &model.Query{Coll: cB, Crit: cmpc(model.OpGtEq, fA, int64(3))}, nil)
+		s.UpdateById(cC, fixedID(203), &Upd{Name: "set", Set: map[string]any{fA: "now a string"}})
+		s.AuditPhysical("writes on collections with 520 / 1030 byte names")
+		if s.failed {
+			return
+		}
+		s.DropIndex(cA, fA)
+		s.DropCollection(cB)
+		s.Audit("DropIndex / DropCollection on long names")
 	}},
 	{"isolation-prefix-names-shared-ids", "C13 C06", func(s *S) {
 		names := []string{"c", "cc", "c:", "coll:", "", "cx"}
